@@ -10,7 +10,7 @@ Model: Gsu/Model/Db.lean (what `drv_c06` executes). `Info.rows` is the logical t
 overlay of `ti` *means* exactly that (`ov.sem k = some (keymap i rows k)` for every key), and
 `lookup_returns_sem` says the code's Lookup returns the meaning.
 -/
-import Gsu.Proofs.DbStep
+import Gsu.Proofs.DbInv9
 import Gsu.Gen.Dbphys
 namespace Gsu.Props.C06
 open Gsu.Db
@@ -46,19 +46,79 @@ theorem index_agrees_reopen (ov : Overlay) (k : Key) (hl : ∀ l ∈ ov.layers, 
     (overlayForN ov.bt 1).sem k = ov.sem k :=
   sem_disk ov k hl
 
-/-- index_agrees, commit — PARTIAL (key level). Full statement: `IAgree lti → TVInv sti d →
-indep d sti lti → IAgree (lay d lti)` where the rows of `lay d lti` are the latest rows minus the
-transaction's deletes plus its adds. Proved: after LayeredOnto every key the transaction did not
-write keeps the meaning it has in the latest state and every key it wrote gets the meaning the
+/-- index_agrees, commit, key by key: after LayeredOnto every key the transaction did not write
+keeps the meaning it has in the latest state and every key it wrote gets the meaning the
 transaction saw in its own view, given the latest and snapshot lookups of the written keys agree
-(`indep`). Missing: the row-level step from "meaning the transaction saw" to `keymap` of the new
-rows, i.e. the transaction-view invariant maintained by tOut/tDel/tUpd (one entry per visible
-row); that part is covered by the correspondence and the direct oracles only. -/
-theorem index_agrees_commit_partial (L S : Overlay) (m : Layer) (k : Key) (vL vS vT : KS)
+(`indep`). (Was `index_agrees_commit_partial`; the row-level step is `index_agrees_commit`.) -/
+theorem index_agrees_commit_key (L S : Overlay) (m : Layer) (k : Key) (vL vS vT : KS)
     (hL : L.sem k = some vL) (hS : S.sem k = some vS) (hT : (S.withMut m).sem k = some vT)
     (hind : m.get k ≠ none → L.lookup k = S.lookup k) :
     (L.withMut m).sem k = some (if m.get k = none then vL else vT) :=
   sem_commit L S m k vL vS vT hL hS hT hind
+
+/-- the transaction-view invariant is kept by Output, Delete and Update: what an open transaction
+reads through every index (snapshot overlay + its own layer) is exactly its snapshot's rows
+minus its deletes plus its adds, one entry per visible row (`TVInv`, Gsu/Proofs/DbInv2.lean) -/
+theorem tran_view_kept (sti : Info) (d d' : TDif) (off : Off) (row : Row) (hT : TblInv sti)
+    (h : TVInv sti d) (hrow : row.keys.length = sti.idx.length) :
+    (tOut sti d row = .ok d' → TVInv sti d') ∧ (tDel sti d off = .ok d' → TVInv sti d') ∧
+    (tUpd sti d off row = .ok d' → TVInv sti d') :=
+  ⟨tvinv_out row h hrow, tvinv_del off hT h, tvinv_upd off row hT h hrow⟩
+
+/-- index_agrees, commit — FULL (row level). LayeredOnto of a transaction that satisfies the view
+invariant and passes the independence guard, onto a latest state any number of commits newer
+than its snapshot, keeps the whole table invariant `TblInv`: every index means exactly `keymap`
+of the NEW rows (latest rows − deletes + adds), offsets and keys stay unique, layers = deltas,
+the delta sums and the row count stay exact. -/
+theorem index_agrees_commit (sti lti : Info) (d : TDif) (hL : TblInv lti) (hS : TblInv sti)
+    (hT : TVInv sti d) (hind : indep d sti lti = true) :
+    TblInv (lay d lti) ∧ IAgree (lay d lti) ∧
+    (lay d lti).rows = lti.rows.filter (fun r => !d.dels.contains r.off) ++ d.adds :=
+  ⟨tblinv_lay hL hS hT hind, (tblinv_lay hL hS hT hind).agree, rfl⟩
+
+/-- THE invariant step: every operation of `Gsu.Db.step` (create, begin, Output/Delete/Update,
+abort, commit incl. the independence guard, merge compute/apply, persist compute/apply, index
+build compute/apply) keeps the global invariant `DbInv` (Gsu/Proofs/DbInv5.lean: every table
+`TblInv`; pending merge/persist results are those of the current layers; a pending build was
+computed from the current rows of its exclusive table; every transaction's view = snapshot ⊕ own
+writes). `OpOK`: a table has ≥ 1 index, a written row carries one key per index, the index being
+built is a key of the rows it is built from. -/
+theorem invariant_step (s : State) (op : Op) (h : DbInv s) (hok : OpOK s op) : DbInv (step s op).1 :=
+  dbinv_step h op hok
+
+/-- index_agrees — FULL, all reachable states: after ANY history of well-formed operations, every
+index of every table of the visible state holds exactly one entry per row, under that row's key,
+and nothing else (Lookup of any key = `keymap` of the rows; every row is found under its key;
+everything found is a row) … -/
+theorem index_agrees (ops : List Op) (hok : OpsOK State.init ops) (j : Nat) (ti : Info)
+    (hj : (run State.init ops).mt[j]? = some ti) (i : Nat) (ov : Overlay) (hi : ti.idx[i]? = some ov) :
+    IAgree ti ∧ (∀ k, ov.lookup k = keymap i ti.rows k) ∧
+    (∀ r ∈ ti.rows, ov.lookup (r.key i) = some r.off) ∧
+    (∀ k o, ov.lookup k = some o → ∃ r ∈ ti.rows, r.key i = k ∧ r.off = o) :=
+  ⟨((dbinv_reachable ops hok).tbl j ti hj).agree,
+   tbl_index_exact ((dbinv_reachable ops hok).tbl j ti hj) i ov hi⟩
+
+/-- … and so does every index as any transaction (open or not) sees it through its own overlays:
+exactly the rows of its view (snapshot − own deletes + own adds), in every reachable state,
+whatever merges, persists, builds and other commits ran in between. -/
+theorem index_agrees_tran (ops : List Op) (hok : OpsOK State.init ops) (t : Tran)
+    (ht : t ∈ (run State.init ops).trans) (j : Nat) (sti : Info) (d : TDif)
+    (hs : t.snap[j]? = some sti) (hd : t.dif[j]? = some d) (i : Nat) (ov : Overlay)
+    (hi : (d.ovs sti)[i]? = some ov) :
+    (∀ k, ov.lookup k = keymap i (d.view sti.rows) k) ∧
+    (∀ r ∈ d.view sti.rows, ov.lookup (r.key i) = some r.off) ∧
+    (∀ k o, ov.lookup k = some o → ∃ r ∈ d.view sti.rows, r.key i = k ∧ r.off = o) :=
+  tran_index_exact ((dbinv_reachable ops hok).tran t ht j sti d hs hd).2 i ov hi
+
+/-- all indexes of a reachable table yield the same rows: a row found through index `i` under its
+key is found through index `i'` under its key, with the same offset -/
+theorem all_indexes_same_rows_reachable (ops : List Op) (hok : OpsOK State.init ops) (j : Nat)
+    (ti : Info) (hj : (run State.init ops).mt[j]? = some ti) (i i' : Nat) (ov ov' : Overlay)
+    (hi : ti.idx[i]? = some ov) (hi' : ti.idx[i']? = some ov') (k : Key) (o : Off)
+    (h : ov.lookup k = some o) : ∃ r ∈ ti.rows, r.key i = k ∧ r.off = o ∧ ov'.lookup (r.key i') = some o := by
+  have hT := (dbinv_reachable ops hok).tbl j ti hj
+  obtain ⟨r, hr, hk, ho⟩ := (tbl_index_exact hT i ov hi).2.2 k o h
+  exact ⟨r, hr, hk, ho, ho ▸ (tbl_index_exact hT i' ov' hi').2.1 r hr⟩
 
 /-- index creation: the old indexes are untouched, the new overlay means exactly its btree, and —
 when the layer count is taken from the latest state — Info.Check's "layers = deltas" holds -/
@@ -133,5 +193,39 @@ example : IAgree ⟨[⟨20, 5, [[1]]⟩], [⟨FMap.empty, [FMap.empty, Layer.ins
     · have : ([1] == k) = false := by simpa using fun e => hk e.symm
       simp [hk, this, appAll]
   | succ i => simp at hi
+
+/-- a concrete history for the non-vacuity examples: two indexes; commits; an Update that keeps
+the key on index 0 and changes it on index 1; a merge computed before and applied after a commit;
+a persist computed before and applied after a commit (by a transaction whose snapshot is older
+than both); an index build on the populated table; a commit onto the new index -/
+def hist : List Op := [.table 2,
+  .begin_ 0, .out 0 0 ⟨20, 5, [[1], [7]]⟩, .out 0 0 ⟨30, 6, [[2], [8]]⟩, .commit 0,
+  .begin_ 1, .begin_ 2,
+  .upd 1 0 20 ⟨40, 9, [[1], [9]]⟩,
+  .mergeC 0 1, .commit 1, .mergeA,
+  .del 2 0 30,
+  .persistC, .commit 2, .persistA,
+  .buildC 0 [(40, [3])], .buildA,
+  .begin_ 3, .out 3 0 ⟨50, 4, [[4], [4], [4]]⟩, .commit 3]
+
+def outs (s : State) : List Op → List String
+  | [] => []
+  | op :: ops => (step s op).2 :: outs (step s op).1 ops
+
+-- non-vacuity of `index_agrees`: the history is well-formed, every one of its 20 steps succeeds
+-- (all three commits included), and it ends with two rows on three indexes
+example : OpsOK State.init hist := opsOKb_sound _ _ (by decide)
+example : outs State.init hist = List.replicate 20 "ok" := by decide
+example : ((run State.init hist).mt.map fun ti => (ti.rows.map (·.off), ti.idx.length)) = [([40, 50], 3)] := by
+  decide
+-- … so the theorem applies to it: e.g. index 1 finds row 40 under its key [9]
+example : ∃ ti ov, (run State.init hist).mt[0]? = some ti ∧ ti.idx[1]? = some ov ∧ ov.lookup [9] = some 40 := by
+  obtain ⟨ti, hti⟩ : ∃ ti, (run State.init hist).mt[0]? = some ti := ⟨_, rfl⟩
+  obtain ⟨ov, hov⟩ : ∃ ov, ti.idx[1]? = some ov := by
+    have : (run State.init hist).mt[0]? = some ti := hti
+    cases hti; exact ⟨_, rfl⟩
+  have h := (index_agrees hist (opsOKb_sound _ _ (by decide)) 0 ti hti 1 ov hov).2.1 [9]
+  refine ⟨ti, ov, hti, hov, ?_⟩
+  rw [h]; cases hti; decide
 
 end Gsu.Props.C06
